@@ -155,6 +155,7 @@ def _ev_panic(did, k):
 def display_module(E, facts, derives=("Display",)):
     """fixed names under the spec grid; interpolating literals next to a hand-written format!"""
     src = HEADER + D.print_enum(E, list(derives), std_derives=E.get("std_derives", ("Debug", "Clone", "PartialEq"))) + "\n"
+    src += E.get("extra_items", "")
     did = E["id"]
     body = []
     for i, v in enumerate(E["variants"]):
